@@ -118,6 +118,55 @@ CsvFile(m) ==
         TL(<<C(m.faces[i][1] + 1, 1) \o "," \o C(m.faces[i][1] + 1, 2) \o "," \o
              C(m.faces[i][2] + 1, 1) \o "," \o C(m.faces[i][2] + 1, 2)>>)]
 
+\* ---------------------------------------------------------------- segment CSV, field level (Fmt = "csvf")
+\* A row is a sequence of FIELDS (the harness joins them with commas); "~q" stands for a double quote.  Every row of
+\* the file carries its own row fault, so the first row, every row, or rows with differing field counts are malformed:
+\*   drop(j)   the last j fields are missing (3, 2, 1 fields)      add(j)   j extra fields (5, 6 fields)
+\*   trail / lead   a trailing / leading comma (an empty fifth field)      blankline   an empty line (no row)
+\*   quoted    every field quoted (a valid CSV rendering of the row)      q1(j)   field j quoted (valid)
+\*   qrow      the whole row inside one pair of quotes (one field)
+\*   empty(j) / word(j) / lone(j)   field j is empty / "abc" / a lone double quote
+\* The case says what the format prescribes: expect = "err" if some row does not consist of four numbers, "ok" (with the
+\* segments of the rows, in order) if every line is such a row, "any" if the only irregularity is blank lines (the csv
+\* package skips them; an error would be acceptable too).
+SegMesh == [nv |-> 4, faces |-> << <<0, 1>>, <<1, 2>>, <<2, 3>> >>]
+CsvNum(f, p) == C(f[((p - 1) \div 2) + 1] + 1, ((p - 1) % 2) + 1)
+Q == "~q"
+RowFaults == { [kd |-> k, j |-> 0] : k \in {"ok", "trail", "lead", "blankline", "quoted", "qrow"} }
+             \cup { [kd |-> "drop", j |-> j] : j \in 1..3 } \cup { [kd |-> "add", j |-> j] : j \in 1..2 }
+             \cup { [kd |-> k, j |-> j] : k \in {"empty", "word", "q1", "lone"}, j \in 1..4 }
+CsvFields(f, x) ==
+    LET g == [p \in 1..4 |-> CsvNum(f, p)] IN
+    CASE x.kd = "ok" -> g
+      [] x.kd = "drop" -> SubSeq(g, 1, 4 - x.j)
+      [] x.kd = "add" -> g \o [i \in 1..x.j |-> "7"]
+      [] x.kd = "trail" -> g \o <<"">>
+      [] x.kd = "lead" -> <<"">> \o g
+      [] x.kd = "blankline" -> << >>
+      [] x.kd = "quoted" -> [p \in 1..4 |-> Q \o g[p] \o Q]
+      [] x.kd = "qrow" -> << Q \o g[1] \o "," \o g[2] \o "," \o g[3] \o "," \o g[4] \o Q >>
+      [] x.kd = "empty" -> [g EXCEPT ![x.j] = ""]
+      [] x.kd = "word" -> [g EXCEPT ![x.j] = "abc"]
+      [] x.kd = "q1" -> [g EXCEPT ![x.j] = Q \o @ \o Q]
+      [] x.kd = "lone" -> [g EXCEPT ![x.j] = Q]
+RowGood(x) == x.kd \in {"ok", "quoted", "q1"}
+RowBad(x) == ~RowGood(x) /\ x.kd # "blankline"
+RowName(x) == x.kd \o (IF x.j = 0 THEN "" ELSE T(x.j))
+RECURSIVE Names(_, _), Wanted(_, _)
+Names(xs, k) == IF k = 0 THEN "" ELSE Names(xs, k - 1) \o (IF k = 1 THEN "" ELSE "/") \o RowName(xs[k])
+Wanted(xs, k) == IF k = 0 THEN << >>
+                 ELSE Wanted(xs, k - 1) \o (IF RowGood(xs[k]) THEN <<SegMesh.faces[k]>> ELSE << >>)
+RowSeqs == LET n == IF Tier = "quick" THEN 2 ELSE 3 IN
+           UNION { [1..k -> RowFaults] : k \in 1..n } \cup { [k \in 1..3 |-> x] : x \in RowFaults }
+CsvfCase(xs, nl) ==
+    [fmt |-> Fmt, mesh |-> SegMesh, var |-> "fields", nlines |-> Len(xs),
+     fault |-> [kind |-> "rows", k |-> Len(xs), j |-> nl, s |-> Names(xs, Len(xs))],
+     file |-> [lines |-> [k \in 1..Len(xs) |-> TL(CsvFields(SegMesh.faces[k], xs[k]))], nl |-> nl, cut |-> 0],
+     expect |-> IF \E k \in 1..Len(xs) : RowBad(xs[k]) THEN "err"
+                ELSE IF \E k \in 1..Len(xs) : xs[k].kd = "blankline" THEN "any" ELSE "ok",
+     want |-> Wanted(xs, Len(xs))]
+CsvfCases == { CsvfCase(xs, nl) : xs \in RowSeqs, nl \in 0..1 }
+
 \* ---------------------------------------------------------------- valid variants
 TriMeshes == IF Tier = "quick" THEN {Tri1, Quad2} ELSE {Tri1, Quad2, Empty, Unused}
 PlyMeshes == IF Tier = "quick" /\ ~OnlyValid THEN {Tri1} ELSE TriMeshes
@@ -187,7 +236,7 @@ Apply(f, x) ==
 \* format's specification is read back"
 CasesOf(v) == { [fmt |-> Fmt, mesh |-> v.mesh, var |-> v.var, nlines |-> Len(v.lines), fault |-> x, file |-> Apply(v.lines, x)] :
                    x \in {y \in Faults(v.lines) : WellFormed(v.lines, y)} }
-Cases == UNION { CasesOf(v) : v \in Variants }
+Cases == IF Fmt = "csvf" THEN CsvfCases ELSE UNION { CasesOf(v) : v \in Variants }
 
 VARIABLES c, done
 Init == c \in Cases /\ done = FALSE
